@@ -7,8 +7,7 @@ Property theorems only (helper lemmas: TdModel/Lemmas/Bin.lean).  `Bytes = List 
 `dec (enc v ++ rest) = ok (v, rest)` says at once: same value, exactly `enc v` consumed, the bytes
 that follow untouched.  Model: TdModel/Model/Bin.lean (transliteration of /repo/bin).
 -/
-import TdModel.Lemmas.Bin
-import TdModel.Gen.C20
+import TdModel.Lemmas.C20
 
 namespace TdModel.C20
 open TdModel TdModel.Bin
@@ -35,34 +34,40 @@ theorem facts_type_ids :
 /-- The padding rule regenerated (translated) from `bin.nearestPaddedValueLength` is the model's
 `padded` on every length. -/
 theorem padding_translated_eq_model (l : Nat) :
-    Facts.C20.nearestPaddedValueLength (l : Int) = (padded l : Int) := by
-  unfold Facts.C20.nearestPaddedValueLength padded Bin.word
-  have h : Int.tdiv (l : Int) 4 = (l : Int) / 4 := Int.tdiv_eq_ediv_of_nonneg (by omega)
-  simp only [h]
-  split <;> split <;> simp_all <;> omega
+    Facts.C20.nearestPaddedValueLength (l : Int) = (padded l : Int) := padG l
 
 /-- …and it is the specification's rule: the least multiple of 4 that is ≥ l. -/
 theorem padding_is_next_multiple_of_4 (l : Nat) :
     padded l % 4 = 0 ∧ l ≤ padded l ∧ padded l < l + 4 :=
   ⟨padded_mod l, padded_ge l, padded_lt l⟩
 
-/-- Offsets, header sizes and shift amounts used by the four string/bytes functions, in source
-order (string and bytes variants are the same code; the model has one definition for both). -/
-theorem facts_string_bytes_literals :
-    Facts.C20.encodeBytesLits = [1, 8, 16, 4] ∧ Facts.C20.encodeStringLits = Facts.C20.encodeBytesLits ∧
-    Facts.C20.decodeBytesLits = [0, 0, 0, 4, 0, 1, 2, 8, 3, 16, 4, 0, 4, 4, 4, 0, 1, 0, 0, 1, 1, 1] ∧
-    Facts.C20.decodeStringLits = Facts.C20.decodeBytesLits := by decide
+/-- **Encoders regenerated.**  `encodeBytes` and `encodeString` assembled from the pieces translated out
+of the Go source — the short-form condition `l <= maxSmallStringLength`, the header bytes
+(`byte(l)`; `firstLongStringByte, byte(l), byte(l>>8), byte(l>>16)`), `currentLen`, the padding
+amount `nearestPaddedValueLength(currentLen) - currentLen` and the order of the three appends — are,
+for every value, the model's `putBytes` / `putString` used in the theorems below. -/
+theorem encoders_regenerated (v : Bytes) :
+    putBytesG encB v = some (putBytes v) ∧ putBytesG encS v = some (putString v) :=
+  ⟨putBytesG_encB v, putBytesG_encS v⟩
 
-/-- The bounds checks of the decoders, as written in the source (conditions of the `if` statements
-that mention `len(`), in order.  These are the checks the panic-explicit model carries
-(`decodeBytesP`, `peekIDP`, `getU64P`, `getBytesP`, `getNP`). -/
-theorem facts_bounds_checks :
-    Facts.C20.guardsDecodeBytes = ["len(b) == 0", "len(b) < 4", "len(b) < (int(strLen) + 4)", "len(b) < (strLen + 1)"] ∧
-    Facts.C20.guardsDecodeString = Facts.C20.guardsDecodeBytes ∧
-    Facts.C20.guardsPeekID = ["len(b.Buf) < Word"] ∧ Facts.C20.guardsPeekN = ["len(b.Buf) < n"] ∧
-    Facts.C20.guardsUint64 = ["len(b.Buf) < size"] ∧ Facts.C20.guardsString = ["len(b.Buf) < n"] ∧
-    Facts.C20.guardsBytes = ["len(b.Buf) < n"] ∧ Facts.C20.guardsInt128 = ["len(b.Buf) < size"] ∧
-    Facts.C20.guardsInt256 = ["len(b.Buf) < size"] := by decide
+/-- **Decoders regenerated.**  `decodeBytes` and `decodeString` assembled from the translated
+conditions (`len(b) == 0`, `b[0] == firstLongStringByte`, `len(b) < 4`, `len(b) < strLen+4`,
+`len(b) < strLen+1`, `strLen > maxSmallStringLength`), the two length computations, the consumed
+lengths and the slice bounds are, for every input, the model's `decodeBytes`; with the translated
+padded-length checks and advances of `Buffer.Bytes` / `Buffer.String` they are the model's
+`getBytes`. -/
+theorem decoders_regenerated (b : Bytes) :
+    decodeBytesG decB b = decodeBytes b ∧ decodeBytesG decS b = decodeBytes b ∧
+    getBytesG false b = getBytes b ∧ getBytesG true b = getString b :=
+  ⟨decodeBytesG_decB b, decodeBytesG_decS b, getBytesG_eq false b, getBytesG_eq true b⟩
+
+/-- **Buffer bounds checks regenerated.**  The translated checks and advances of `PeekID`/`Uint32`,
+`Uint64`, `PeekN`/`ConsumeN`, `ConsumeID` and the sign test of `VectorHeader` give, for every input,
+the model's decoders. -/
+theorem buffer_checks_regenerated (b : Bytes) (n id : Nat) :
+    getU32G b = getU32 b ∧ getU64G b = getU64 b ∧ getNG n b = getN n b ∧
+    consumeIDG id b = consumeID id b ∧ getVectorHeaderG b = getVectorHeader b :=
+  ⟨getU32G_eq b, getU64G_eq b, getNG_eq n b, consumeIDG_eq id b, getVectorHeaderG_eq b⟩
 
 /-! ## Round trips: `dec (enc v ++ rest) = ok (v, rest)` for every value of every primitive -/
 
